@@ -95,16 +95,46 @@ def call_text(call):
     return '%s(%s)' % (call[0], ', '.join(list(call[1]) + ['%s=%s' % kv for kv in call[2].items()]))
 
 
+def calls_named(state, name):
+    """Recorded calls of the function `name`, however it was reached (bare name or module.name)."""
+    return [c for c in state.calls if c[0] == name or c[0].endswith('.' + name)]
+
+
 def draws(state, suffix):
     """Calls of an entropy source on this path (by the last component(s) of the callee text)."""
     return [c for c in state.calls if c[0] == suffix or c[0].endswith('.' + suffix)]
 
 
 # ------------------------------------------------------------------------------------------------ term structure
+def _one_octet_ints(t):
+    """INT(1;x) and LEN(1;x) are single octets: BYTE(x) / BYTE(len(x))."""
+    for head, fmt in (('INT(1;', 'BYTE(%s)'), ('LEN(1;', 'BYTE(len(%s))')):
+        pos = 0
+        while True:
+            i = t.find(head, pos)
+            if i < 0:
+                break
+            if i > 0 and (t[i - 1].isalnum() or t[i - 1] == '_'):
+                pos = i + 1
+                continue
+            j, d = i + len(head), 1
+            while j < len(t) and d:
+                d += t[j] in '([{'
+                d -= t[j] in ')]}'
+                j += 1
+            if d:
+                break
+            t = t[:i] + fmt % t[i + len(head):j - 1] + t[j:]
+            pos = i + 1
+    return t
+
+
 def norm_term(text):
-    """BYTE(<int literal>) is the constant octet; adjacent constants are one constant."""
+    """Spelling-independent form of a rendered byte term: BYTE(<int literal>) is the constant octet, a one-octet INT / LEN is a BYTE,
+    adjacent constants are one constant."""
     if text is None:
         return None
+    text = _one_octet_ints(text)
     t = re.sub(r'\bBYTE\((\d+)\)', lambda m: 'C(%02x)' % int(m.group(1)) if int(m.group(1)) < 256 else m.group(0), text)
     while True:
         new = re.sub(r'\bC\(([0-9a-f]*)\) C\(([0-9a-f]*)\)', r'C(\1\2)', t)
